@@ -26,9 +26,13 @@ TypeOk(e) == IF e.pos \in {"alias", "const"}
 \* (e.fixed_lens: the lengths the observed type states; e.rust_lens: the lengths of the arrays of the Rust type)
 LengthsOk(e) == ("fixed_lens" \in DOMAIN e) =>
     \A k \in 1..Len(e.fixed_lens) : \E j \in 1..Len(e.rust_lens) : e.fixed_lens[k] = e.rust_lens[j]
+\* a DECLARATION event (e.declared): the parameter list the generated declaration of an item states is the item's Rust parameter list,
+\* in order - whether or not the body mentions every parameter ("generic parameters are preserved in order")
+DeclOk(e) == e.declared = e.params
+EventOk(e) == IF "declared" \in DOMAIN e THEN DeclOk(e) ELSE TypeOk(e) /\ LengthsOk(e)
 Init == i = 1 /\ bad = <<>>
 Next == /\ i <= Len(Rec)
-        /\ bad' = IF TypeOk(Rec[i]) /\ LengthsOk(Rec[i]) THEN bad ELSE Append(bad, i)
+        /\ bad' = IF EventOk(Rec[i]) THEN bad ELSE Append(bad, i)
         /\ i' = i + 1
 Report == (i = Len(Rec) + 1) => PrintT(<<"INFO", "bad", ToJson(bad)>>)
 Accepted == PrintT(<<"INFO", "matched", TLCGet("stats").diameter - 1>>)
